@@ -3,7 +3,7 @@
 From Coq Require Import ZArith List Bool Lia ZifyBool Arith.
 From Soc Require Import Lib.Bits Lib.Res Lib.PyList.
 From Soc Require Model.Mux Model.MuxSpec Model.Event Model.MemoryMap Model.MemSpec Model.CsrDecoder.
-From Soc Require Proofs.MemArith Proofs.MuxBasic Proofs.MuxRead Proofs.MuxWrite Proofs.MuxPrepare Proofs.MuxAssemble Proofs.Event.
+From Soc Require Proofs.MemArith Proofs.MemAlloc Proofs.CsrDecoder Proofs.MuxBasic Proofs.MuxRead Proofs.MuxWrite Proofs.MuxPrepare Proofs.MuxAssemble Proofs.Event.
 From Soc Require Import Model.CsrEvent.
 Import ListNotations.
 Open Scope Z_scope.
@@ -829,3 +829,206 @@ Section Bus.
     rewrite Hz, Hp. cbn. apply orb_true_r.
   Qed.
 End Bus.
+
+(* ------------------------------------------------------------------ what a completed write delivers, word by word *)
+
+(* word j of an assembled value is word j's data, clipped to the mask bits that word carries *)
+Lemma word_assemble dw width data n j : 0 < dw -> 0 <= width -> 0 <= j -> width <= Z.of_nat n * dw ->
+  Mux.word dw width j (MuxSpec.assemble dw width data n) =
+  trunc (Z.max 0 (Z.min width ((j + 1) * dw) - j * dw)) (data j).
+Proof.
+  intros Hdw Hw Hj Hcov. unfold Mux.word. cbv zeta.
+  set (lo := j * dw). set (hi := Z.min width ((j + 1) * dw)).
+  assert (Hlo : 0 <= lo) by (unfold lo; nia).
+  destruct (Z.leb_spec hi lo) as [H|H].
+  - replace (Z.max 0 (hi - lo)) with 0 by lia. unfold trunc. rewrite Z.pow_0_r, Z.mod_1_r. reflexivity.
+  - replace (Z.max 0 (hi - lo)) with (hi - lo) by lia.
+    apply Z.bits_inj'. intros i Hi.
+    rewrite slice_testbit, trunc_testbit by lia.
+    destruct (Z.ltb_spec i (hi - lo)) as [Hlt|]; [|reflexivity].
+    rewrite MuxAssemble.assemble_full_testbit by (auto; lia).
+    assert (Hhi : hi <= lo + dw) by (unfold hi, lo; lia).
+    replace (lo + i <? width) with true by (unfold hi in *; lia).
+    assert (Eq : (lo + i) / dw = j).
+    { symmetry. apply (Z.div_unique_pos (lo + i) dw j i); [lia|]. unfold lo. lia. }
+    assert (Em : (lo + i) mod dw = i).
+    { symmetry. apply (Z.mod_unique_pos (lo + i) dw j i); [lia|]. unfold lo. lia. }
+    rewrite Eq, Em. reflexivity.
+Qed.
+
+Lemma word_written p r dj j : valid p -> (r = reg_en p \/ r = reg_pe p) -> 0 <= j ->
+  Mux.word (pdw p) (pn p) j (written_value p r dj) =
+  trunc (Z.max 0 (Z.min (pn p) ((j + 1) * pdw p) - j * pdw p)) (dj j).
+Proof.
+  intros Hv Hr Hj. destruct (valid_facts p Hv) as (Hd & Ha & Hn & _).
+  destruct (span_spec (pn p) (pdw p) (pal p) Hd Hn Ha) as (H1 & H2 & _). fold (pspan p) in H1, H2.
+  pose proof (reg_size_holds (pn p) (pdw p) Hd Hn) as Hh.
+  unfold written_value. apply word_assemble; auto.
+  assert (Hl : Mux.reg_len r = pspan p) by (destruct Hr as [-> | ->]; unfold Mux.reg_len; cbn; lia).
+  rewrite Hl, Z2Nat.id by lia. nia.
+Qed.
+
+(* bit k of the written value is bit (k mod dw) of word k / dw *)
+Lemma written_value_testbit p r dj k : valid p -> (r = reg_en p \/ r = reg_pe p) -> 0 <= k ->
+  Z.testbit (written_value p r dj) k =
+  if k <? pn p then Z.testbit (dj (k / pdw p)) (k mod pdw p) else false.
+Proof.
+  intros Hv Hr Hk. destruct (valid_facts p Hv) as (Hd & Ha & Hn & _).
+  destruct (span_spec (pn p) (pdw p) (pal p) Hd Hn Ha) as (H1 & H2 & _). fold (pspan p) in H1, H2.
+  pose proof (reg_size_holds (pn p) (pdw p) Hd Hn) as Hh.
+  unfold written_value. apply MuxAssemble.assemble_full_testbit; auto.
+  assert (Hl : Mux.reg_len r = pspan p) by (destruct Hr as [-> | ->]; unfold Mux.reg_len; cbn; lia).
+  rewrite Hl, Z2Nat.id by lia. nia.
+Qed.
+
+(* ================================================================== 4. attachment through a csr.Decoder *)
+
+Lemma build_map_wf n dw al m : build_map n dw al = Ok m -> MemAlloc.wf_map m.
+Proof.
+  unfold build_map. intros H.
+  destruct (MemoryMap.new_map (VInt (addr_width n dw al)) (VInt dw) (VInt al)) as [m0|] eqn:E0; [|discriminate].
+  cbn [bind] in H.
+  destruct (MemoryMap.add_resource m0 id_enable true _ _ VNone VNone) as [[m1 [s1 e1]]|] eqn:E1; [|discriminate].
+  cbn [bind] in H.
+  destruct (MemoryMap.add_resource m1 id_pending true _ _ VNone VNone) as [[m2 [s2 e2]]|] eqn:E2; [|discriminate].
+  cbn [bind] in H. injection H as <-.
+  eapply MemAlloc.add_resource_wf; [|exact E2]. eapply MemAlloc.add_resource_wf; [|exact E1].
+  eapply MemAlloc.new_map_wf; exact E0.
+Qed.
+
+Definition bus_of (i : cinp) : CsrDecoder.bus :=
+  {| CsrDecoder.addr := ci_addr i; CsrDecoder.r_stb := ci_rstb i; CsrDecoder.w_stb := ci_wstb i;
+     CsrDecoder.w_data := ci_wdata i |}.
+Definition cinp_of (x : CsrDecoder.bus) (src : list bool) : cinp :=
+  {| ci_addr := CsrDecoder.addr x; ci_rstb := CsrDecoder.r_stb x; ci_wstb := CsrDecoder.w_stb x;
+     ci_wdata := CsrDecoder.w_data x; ci_src := src |}.
+
+(* Decoder.add() places the monitor's window so that the decoder's Case pattern is exact: aligned to the
+   window's own size, inside the decoder's address space (explicit addresses: multiples of the window size) *)
+Theorem attach_wf p b d a : valid p -> built_ok p b -> attach b d = Ok a ->
+  (d_addr d = VNone \/ exists x, d_addr d = VInt x /\ x mod 2 ^ b_aw b = 0) ->
+  CsrDecoder.wf_sub (a_aw a) (a_sub a) /\ CsrDecoder.s_aw (a_sub a) = b_aw b /\ a_aw a = d_aw d.
+Proof.
+  intros Hv Hb Hat Haddr. destruct (valid_facts p Hv) as (Hd & Ha & Hn & _).
+  destruct Hb as (_ & Haw & _ & Hmap & _ & _ & Hdw & _).
+  unfold attach in Hat.
+  destruct (MemoryMap.new_map (VInt (d_aw d)) (VInt (Mux.c_dw (b_mux b))) (VInt (d_al d))) as [dm|] eqn:E0; [|discriminate].
+  cbn [bind] in Hat.
+  destruct (MemoryMap.add_window dm 0 (b_map b) _ (d_addr d) None) as [[dm' [[s e] r]]|] eqn:E1; [|discriminate].
+  cbn [bind] in Hat. injection Hat as <-. cbn [a_aw a_sub CsrDecoder.s_aw].
+  split; [|auto].
+  pose proof (MemAlloc.new_map_wf _ _ _ _ E0) as Hwdm.
+  assert (Hdm : dm = MemoryMap.MM (d_aw d) (Mux.c_dw (b_mux b)) (d_al d) [] [] [] [] 0 false).
+  { unfold MemoryMap.new_map in E0.
+    destruct (MemoryMap.posint (VInt (d_aw d))); [|discriminate]. destruct (MemoryMap.posint (VInt (Mux.c_dw (b_mux b)))); [|discriminate].
+    destruct (MemoryMap.nonneg (VInt (d_al d))); [|discriminate]. cbn in E0. inversion E0. reflexivity. }
+  apply MemAlloc.add_window_inv in E1 as (nm & rs & _ & _ & _ & _ & _ & Hr & Hcar & _).
+  assert (Hr1 : MemAlloc.win_ratio dm (b_map b) None = 1).
+  { unfold MemAlloc.win_ratio. rewrite Hmap, Hdm. cbn [MemAlloc.win_sparse MemoryMap.m_dw final_map]. rewrite Hdw.
+    apply Z.div_same. lia. }
+  rewrite Hr1 in Hr. subst r. rewrite Z.div_1_r in Hcar.
+  apply MemAlloc.car_ok in Hcar as (sz & Hsz & _ & He & Hs & _ & Hbound & _).
+  injection Hsz as <-.
+  assert (Hbaw : MemoryMap.m_aw (b_map b) = b_aw b) by (rewrite Hmap, Haw; reflexivity).
+  rewrite Hbaw in *.
+  assert (Hpos : 0 < b_aw b) by (rewrite Haw; unfold addr_width; pose proof (ceil_log2_nonneg (reg_size (pn p) (pdw p))); lia).
+  set (A := MemAlloc.win_alignment dm (b_map b) 1) in *.
+  assert (HA : b_aw b <= A /\ 0 <= A).
+  { unfold A, MemAlloc.win_alignment. rewrite Hbaw, Z.div_1_r. lia. }
+  pose proof (MemArith.pow2_pos (b_aw b) ltac:(lia)) as Hp2.
+  pose proof (MemArith.align_up_ge (Z.max (2 ^ b_aw b) 1) A ltac:(lia)) as Hge.
+  rewrite Hdm in Hbound. cbn [MemoryMap.m_aw] in Hbound.
+  unfold CsrDecoder.wf_sub. cbn [CsrDecoder.s_aw CsrDecoder.s_start].
+  split; [lia|].
+  destruct Haddr as [Hnone|(x & Hx & Hxm)].
+  - rewrite Hnone in Hs. rewrite Hdm in Hs. cbn [MemoryMap.m_next] in Hs.
+    pose proof (MemArith.align_up_ge 0 A ltac:(lia)). pose proof (MemArith.align_up_mod 0 A ltac:(lia)) as Hm.
+    rewrite <- Hs in *. split; [lia|]. split; [|lia].
+    apply (MemArith.mod_pow2_le s A (b_aw b)); [lia|exact Hm].
+  - rewrite Hx in Hs. destruct Hs as (-> & Hx0 & _). split; [lia|]. split; [exact Hxm|lia].
+Qed.
+
+(* what the monitor's bus port sees behind the decoder: inside the window the access with the window start
+   subtracted, outside it no strobe *)
+Theorem through_route a i : CsrDecoder.wf_sub (a_aw a) (a_sub a) -> 0 <= ci_addr i < 2 ^ a_aw a ->
+  through a i = cinp_of (CsrDecoder.route (a_sub a) (bus_of i)) (ci_src i).
+Proof.
+  intros Hwf Hi. unfold through. fold (bus_of i). unfold CsrDecoder.dec_down. cbn [CsrDecoder.dec_down_from negb andb].
+  rewrite (CsrDecoder.sub_match_span (a_aw a) (a_sub a) (CsrDecoder.addr (bus_of i)) Hwf) by exact Hi.
+  rewrite (CsrDecoder.sub_drive_route (a_aw a) (a_sub a) (bus_of i) Hwf). reflexivity.
+Qed.
+
+Lemma back_id o : back o = o.
+Proof. destruct o as [r q t]. unfold back, CsrDecoder.dec_up. cbn. reflexivity. Qed.
+
+(* the monitor behind a decoder IS the monitor, run on the routed trace; the decoder's r_data is the monitor's *)
+Theorem run_attached_is_run b a is : run_attached b a is = run b (init b) (map (through a) is).
+Proof. unfold run_attached. rewrite (map_ext _ (fun o => o) back_id). apply map_id. Qed.
+
+(* ------------------------------------------------------------------ what the decoder's memory map reports *)
+
+Lemma all_resources_final_frozen n dw al : 0 < dw -> 0 <= n -> 0 <= al ->
+  MemoryMap.all_resources (MemoryMap.set_frozen (final_map n dw al)) = Ok [info_enable n dw al; info_pending n dw al].
+Proof. intros Hd Hn Ha. rewrite <- (all_resources_final n dw al Hd Hn Ha). reflexivity. Qed.
+
+Definition shifted (s : Z) (i : MemoryMap.info) : MemoryMap.info :=
+  {| MemoryMap.i_res := MemoryMap.i_res i; MemoryMap.i_path := [MemoryMap.PStr atom_window] :: MemoryMap.i_path i;
+     MemoryMap.i_start := MemoryMap.i_start i + s; MemoryMap.i_end := MemoryMap.i_end i + s;
+     MemoryMap.i_width := MemoryMap.i_width i |}.
+
+Lemma translate_shift i dw s : 0 <= MemoryMap.i_start i < MemoryMap.i_end i -> 0 <= s -> 0 <= MemoryMap.i_width i ->
+  MemoryMap.translate i dw (Some [MemoryMap.PStr atom_window]) s 1 = Ok (shifted s i).
+Proof.
+  intros Hi Hs Hw. unfold MemoryMap.translate. rewrite !Z.mod_1_r, !Z.div_1_r, Z.mul_1_r.
+  cbn [Z.eqb orb check bind]. unfold MemoryMap.mk_info. cbn [length Nat.eqb negb check bind].
+  replace (0 <=? MemoryMap.i_start i + s) with true by lia.
+  replace (MemoryMap.i_start i + s <? MemoryMap.i_start i + s + (MemoryMap.i_end i - MemoryMap.i_start i)) with true by lia.
+  replace (0 <=? MemoryMap.i_width i) with true by lia.
+  change ((1 =? 1)%positive) with true. cbn [orb check bind]. unfold shifted. f_equal. f_equal; lia.
+Qed.
+
+(* through the decoder, all_resources() reports the two registers under the window's name, at the window start
+   plus their own addresses *)
+Theorem attached_layout p b d a : valid p -> built_ok p b -> attach b d = Ok a ->
+  MemoryMap.all_resources (a_map a) =
+  Ok [shifted (CsrDecoder.s_start (a_sub a)) (info_enable (pn p) (pdw p) (pal p));
+      shifted (CsrDecoder.s_start (a_sub a)) (info_pending (pn p) (pdw p) (pal p))].
+Proof.
+  intros Hv Hb Hat. destruct (valid_facts p Hv) as (Hd & Ha & Hn & _).
+  destruct (span_spec (pn p) (pdw p) (pal p) Hd Hn Ha) as (H1 & _).
+  destruct Hb as (_ & Haw & _ & Hmap & _ & _ & Hdw & _).
+  unfold attach in Hat.
+  destruct (MemoryMap.new_map (VInt (d_aw d)) (VInt (Mux.c_dw (b_mux b))) (VInt (d_al d))) as [dm|] eqn:E0; [|discriminate].
+  cbn [bind] in Hat.
+  destruct (MemoryMap.add_window dm 0 (b_map b) _ (d_addr d) None) as [[dm' [[s e] r]]|] eqn:E1; [|discriminate].
+  cbn [bind] in Hat. injection Hat as <-. cbn [a_map a_sub CsrDecoder.s_start].
+  assert (Hdm : dm = MemoryMap.MM (d_aw d) (Mux.c_dw (b_mux b)) (d_al d) [] [] [] [] 0 false).
+  { unfold MemoryMap.new_map in E0.
+    destruct (MemoryMap.posint (VInt (d_aw d))); [|discriminate]. destruct (MemoryMap.posint (VInt (Mux.c_dw (b_mux b)))); [|discriminate].
+    destruct (MemoryMap.nonneg (VInt (d_al d))); [|discriminate]. cbn in E0. inversion E0. reflexivity. }
+  apply MemAlloc.add_window_inv in E1 as (nm & rs & _ & _ & _ & Hnm & _ & Hr & Hcar & Hins & Hdm').
+  assert (Hr1 : MemAlloc.win_ratio dm (b_map b) None = 1).
+  { unfold MemAlloc.win_ratio. rewrite Hmap, Hdm. cbn [MemAlloc.win_sparse MemoryMap.m_dw final_map]. rewrite Hdw.
+    apply Z.div_same. lia. }
+  rewrite Hr1 in Hr. subst r.
+  apply MemAlloc.car_ok in Hcar as (sz & _ & _ & _ & Hs & _).
+  assert (Hs0 : 0 <= s).
+  { destruct (d_addr d) as [x| |]; [lia| |contradiction].
+    rewrite Hs. apply (Z.le_trans _ (MemoryMap.m_next dm)); [rewrite Hdm; cbn; lia|].
+    apply MemArith.align_up_ge. unfold MemAlloc.win_alignment. rewrite Hdm. cbn [MemoryMap.m_al].
+    pose proof (MemAlloc.new_map_wf _ _ _ _ E0) as Hw. pose proof (MemAlloc.wf_al _ Hw). rewrite Hdm in H. cbn in H. lia. }
+  assert (Hnm' : nm = Some [MemoryMap.PStr atom_window]).
+  { unfold MemAlloc.win_name_ok in Hnm. destruct Hnm as (x & Hx & ->). cbn in Hx. inversion Hx. reflexivity. }
+  subst nm. rewrite Hdm in Hins. cbn [MemoryMap.m_ranges] in Hins.
+  assert (Hrs : rs = [{| MemoryMap.e_start := s; MemoryMap.e_stop := e; MemoryMap.e_step := 1; MemoryMap.e_asg := MemoryMap.AW 0 |}]).
+  { cbn in Hins. inversion Hins. reflexivity. }
+  rewrite Hdm', Hrs, Hdm, Hmap.
+  cbn [MemoryMap.all_resources MemoryMap.m_aw MemoryMap.m_dw MemoryMap.m_al MemoryMap.m_ress MemoryMap.m_wins app map
+       MemoryMap.e_asg fst snd find MemoryMap.w_id].
+  replace (0 =? 0) with true by reflexivity.
+  fold (MemoryMap.all_resources (MemoryMap.set_frozen (final_map (pn p) (pdw p) (pal p)))).
+  rewrite (all_resources_final_frozen (pn p) (pdw p) (pal p) Hd Hn Ha).
+  cbn [bind mapR MemoryMap.w_name MemoryMap.e_start MemoryMap.e_step].
+  rewrite !translate_shift; try (cbn [info_enable info_pending MemoryMap.i_start MemoryMap.i_end MemoryMap.i_width]; lia).
+  reflexivity.
+Qed.
